@@ -386,3 +386,6 @@ def run(chk, repo, tier):
     l5(chk, repo)
     l4(chk, repo, models)
     r3(chk, repo)
+    from .c18 import endpoint_finite
+
+    endpoint_finite(chk, repo, "L6")
